@@ -303,6 +303,17 @@ theorem loglik_noninterference_fx {μ I O} [Inhabited μ] [MaskVal μ] (pre : I 
   unfold loglik
   rw [where_noninterference m _ _ h]
 
+/-- **`loglik_noninterference`**: both at once — changing the unsampled entries of the data and of
+the prediction (through any other forward operator) leaves the output unchanged. -/
+theorem loglik_noninterference {μ I O} [Inhabited μ] [MaskVal μ] (pre : I → Tensor FVal)
+    (F F' B : Tensor FVal → Tensor FVal) (sub : Tensor FVal → Tensor FVal → Tensor FVal)
+    (scale : Tensor FVal → Tensor FVal) (post : Tensor FVal → O) (m : Tensor μ) (x : I)
+    (y y' : Tensor FVal) (hy : agreeOnSupport m y y')
+    (hf : agreeOnSupport m (F (pre x)) (F' (pre x))) :
+    loglik pre F B sub scale post m x y = loglik pre F' B sub scale post m x y' := by
+  rw [loglik_noninterference_y pre F B sub scale post m x y y' hy,
+    loglik_noninterference_fx pre F F' B sub scale post m x y' hf]
+
 /-- the concrete `error` tensor the driver computes is an instance of `loglik`, hence inherits both -/
 theorem loglikError_noninterference {μ} [Inhabited μ] [MaskVal μ] (m : Tensor μ)
     (fx fx' y y' : Tensor FVal) (s : Int) (h1 : agreeOnSupport m fx fx') (h2 : agreeOnSupport m y y') :
